@@ -226,7 +226,7 @@ class ServerWorld:
 
     def server_out(self, d, addr):
         self.ev.append(dict(ev="tx", now=self.now(), a=self.aid(addr), n=len(d), ptype=d[12] if len(d) > 12 else -1, count=d[15] if len(d) > 15 else -1,
-                            sealed=self.sealed_for(d, addr)))
+                            sealed=self.sealed_for(d, addr), blocked=int(addr[0] in self.ctxt.blocklist)))      # (the block list as configured on the context NOW)
         self.sent_to[addr].append(d)
         for c in self.clients.values():
             if c["addr"] == addr and not c["deaf"]:
